@@ -533,9 +533,13 @@ def _run_one_case(case: dict) -> dict:
     def v(oracle: str, site: str, pred: str, **detail: Any) -> None:
         viol.append({"sig": f"C11/{oracle}/{site}/{pred}", "oracle": oracle, "site": site, "pred": pred, "detail": detail})
 
-    e = build(case["recipe"])
-    o = _ordering(case)
-    io = [ser_var(x) for x in e.get_variables()]
+    try:
+        e = build(case["recipe"])
+        o = _ordering(case)
+        io = [ser_var(x) for x in e.get_variables()]
+    except Exception as ex:  # noqa: BLE001 - the raw constructors refusing a well-formed expression
+        v("O1", "constructor", f"raised:{type(ex).__name__}", msg=str(ex)[:200])
+        return {"viol": viol, "xd": xd, "xv": xv, "io": "constructor-raised", "raised": type(ex).__name__}
     # siblings are canonicalised in this interpreter too, before or after the case itself depending on
     # the (explicit) evaluation order; the parent compares every item across interpreters
     sibs = case.get("siblings") or []
